@@ -52,7 +52,7 @@ LogonOK == In(R("A", 0))
 
 \* ---- family "seq": C01 (order, exactly once) and C04 (gap recovery)
 SeqEvents ==
-    Lifecycle \cup {LogonOK, In([R("A", 2) EXCEPT !.hb = 30])}
+    Lifecycle \cup {LogonOK, In([R("A", 2) EXCEPT !.hb = 30]), In([R("A", 0) EXCEPT !.rsf = "N"])}
     \cup {In(R("D", rs)) : rs \in {-1, 0, 1, 2, 3}}
     \cup {In(PossDup(R("D", rs))) : rs \in {-1, 0, 1}}
     \cup {In([R("D", 0) EXCEPT !.app = v]) : v \in {"rej", "biz"}}
@@ -74,6 +74,7 @@ Defects(r) ==
 
 GateBase == {R("D", 0), R("D", -1), R("D", 1), PossDup(R("D", -1)), R("0", 0), [R("1", 0) EXCEPT !.trid = "T1"],
              [R("2", 0) EXCEPT !.b = 1, !.e = 0], R("5", 0), [PossDup(R("4", 0)) EXCEPT !.gf = "Y", !.rn = 1],
+             [R("4", 1) EXCEPT !.rn = 2],          \* SequenceReset in reset mode (its own MsgSeqNum is not checked)
              R("3", 0)}
 
 GateEvents ==
@@ -123,11 +124,14 @@ GarbageEvents ==
     \cup {In(g) : g \in UNION {Garbage(R(t, 0)) : t \in {"D", "0", "1", "2", "4", "5", "A", "3"}}}
     \cup {In([PossDup(R("D", -1)) EXCEPT !.ost = o]) : o \in {"none", "bad", "after"}}
     \cup {In([R("4", 0) EXCEPT !.gf = "bad"]), In([R("2", 0) EXCEPT !.b = -1]), In([R("2", 0) EXCEPT !.b = 1, !.e = -1])}
+    \* rejects that name no tag (the Reject layout differs below FIX.4.2)
+    \cup {In([R("4", 0) EXCEPT !.rn = -1]), In([R("D", 0) EXCEPT !.cid = "wrong"]), In([R("D", 0) EXCEPT !.st = "stale"]),
+          In([R("D", 0) EXCEPT !.app = "rej"]), In([R("D", 0) EXCEPT !.app = "biz"])}
 
 \* ---- family "keep": C20 (keep-alive)
 KeepEvents ==
     {K("Connect"), K("Disconnected"), T("PeerTimeout"), T("NeedHeartbeat"), K("Flush"), Snd("b1", FALSE, FALSE)}
-    \cup {In([R("A", 0) EXCEPT !.hb = h]) : h \in {1, 30}}
+    \cup {In([R("A", 0) EXCEPT !.hb = h]) : h \in {1, 30}} \cup {In(R("A", 2))}
     \cup {In([R("1", 0) EXCEPT !.trid = id]) : id \in {"T1", "T2", ""}} \cup {In([R("1", 1) EXCEPT !.trid = "T1"])}
     \cup {In(R("0", 0)), In(R("D", 0)), In(R("D", 2)), In(PossDup(R("D", -1))), In(R("garbled", 0))}
     \cup {In(PossDup(R("D", 0))), In([PossDup(R("4", 0)) EXCEPT !.gf = "Y", !.rn = 1])}
